@@ -3,6 +3,7 @@ Helper lemmas about the encoding model (cff/encoding.go).  Property theorems: Pr
 -/
 import SfntV.Model.CffEncoding
 import SfntV.Proofs.CffIndex
+import SfntV.Proofs.CffCharset
 
 namespace SfntV.Cff
 open SfntV
@@ -32,7 +33,7 @@ theorem ext_getD (a b : List Nat) (hl : a.length = b.length) (h : ∀ c, c < a.l
 free, every code gets its glyph id and nothing else changes -/
 theorem readCodes_spec : ∀ (P : List UInt8) (res : List Nat) (cur : Nat),
     (∀ b ∈ P, b.toNat < res.length) → (∀ b ∈ P, res.getD b.toNat 0 = 0) →
-    (P.map (·.toNat)).Nodup → 0 < cur → cur + P.length ≤ 65536 →
+    (P.map (·.toNat)).Nodup → 0 < cur → cur + P.length < 65536 →
     ∃ res', readCodes P res cur = .ok (res', cur + P.length) ∧ res'.length = res.length ∧
       ∀ c, res'.getD c 0 =
         match (P.map (·.toNat)).idxOf? c with
@@ -72,6 +73,297 @@ theorem readCodes_spec : ∀ (P : List UInt8) (res : List Nat) (cur : Nat),
       simp only [hc', Bool.false_eq_true, if_false]
       cases hh : (bs.map (·.toNat)).idxOf? c with
       | none => simp [getD_set, hc]
-      | some i => simp; omega
+      | some i =>
+        simp only [Option.map_some]
+        show cur + 1 + i = cur + (i + 1)
+        omega
+
+
+/-! ### format 1 reduces to format 0 -/
+
+theorem readCodes_append : ∀ (A B : List UInt8) (res : List Nat) (cur : Nat),
+    readCodes (A ++ B) res cur =
+      match readCodes A res cur with
+      | .ok (r, c) => readCodes B r c
+      | .err e => .err e
+      | .panic s => .panic s := by
+  intro A
+  induction A with
+  | nil => intro B res cur; rfl
+  | cons a as ih =>
+    intro B res cur
+    simp only [List.cons_append, readCodes]
+    split
+    · rfl
+    · exact ih B _ _
+
+theorem readCodes_cur : ∀ (P : List UInt8) (res : List Nat) (cur : Nat) (r : List Nat) (cu : Nat),
+    readCodes P res cur = .ok (r, cu) → cur + P.length < 65536 → cu = cur + P.length := by
+  intro P
+  induction P with
+  | nil =>
+    intro res cur r cu h _
+    simp only [readCodes] at h
+    injection h with h
+    injection h with _ h2
+    simp [← h2]
+  | cons b bs ih =>
+    intro res cur r cu h hl
+    simp only [readCodes] at h
+    split at h
+    · cases h
+    · have hmod : (cur + 1) % 65536 = cur + 1 := Nat.mod_eq_of_lt (by simp at hl; omega)
+      rw [hmod] at h
+      have := ih _ _ _ _ h (by simp at hl ⊢; omega)
+      simp; omega
+
+/-- codes `j, j+1, …` (`k` of them) as bytes -/
+def codeRange (j k : Nat) : List UInt8 := (List.range' j k).map UInt8.ofNat
+
+theorem readRange_eq (n : Nat) : ∀ (k j : Nat) (res : List Nat) (cur : Nat),
+    j + k ≤ 256 → cur + k ≤ n →
+    readRange n k j res cur = readCodes (codeRange j k) res cur := by
+  intro k
+  induction k with
+  | zero => intro j res cur _ _; rfl
+  | succ k ih =>
+    intro j res cur hj hc
+    have hb : (UInt8.ofNat j).toNat = j := by simp [UInt8.toNat_ofNat']; omega
+    simp only [readRange, codeRange, List.range'_succ, List.map_cons, readCodes, hb]
+    have : ¬ cur ≥ n := by omega
+    simp only [this, if_false]
+    split
+    · rfl
+    · exact ih (j + 1) _ _ (by omega) (by omega)
+
+def segCodes (ss : List (Nat × Nat)) : List UInt8 := ss.flatMap fun s => codeRange s.1 (s.2 + 1)
+
+/-- reading the ranges of format 1 = assigning the listed codes one after the other -/
+theorem readEncRanges_eq (n : Nat) (ss : List (Nat × Nat)) :
+    ∀ (A B : Bytes) (c : Nat) (res : List Nat) (cur : Nat), c = A.length →
+      (∀ s ∈ ss, s.1 + s.2 ≤ 255) → cur + (segCodes ss).length ≤ n → n < 65536 →
+      readEncRanges (A ++ ss.flatMap (fun s => [UInt8.ofNat s.1, UInt8.ofNat s.2]) ++ B) n ss.length c res cur =
+        match readCodes (segCodes ss) res cur with
+        | .ok (r, cu) => .ok (r, cu, c + 2 * ss.length)
+        | .err e => .err e
+        | .panic s => .panic s := by
+  induction ss with
+  | nil =>
+    intro A B c res cur _ _ _ _
+    simp [readEncRanges, segCodes, readCodes]
+  | cons s ss ih =>
+    intro A B c res cur hc hb hn hn6
+    have hs := hb s (List.mem_cons_self ..)
+    simp only [List.length_cons, readEncRanges]
+    have hd1 : A ++ (s :: ss).flatMap (fun s => [UInt8.ofNat s.1, UInt8.ofNat s.2]) ++ B
+        = A ++ [UInt8.ofNat s.1] ++ ([UInt8.ofNat s.2] ++ ss.flatMap (fun s => [UInt8.ofNat s.1, UInt8.ofNat s.2]) ++ B) := by
+      simp [List.flatMap_cons, List.append_assoc]
+    have hd2 : A ++ (s :: ss).flatMap (fun s => [UInt8.ofNat s.1, UInt8.ofNat s.2]) ++ B
+        = (A ++ [UInt8.ofNat s.1]) ++ [UInt8.ofNat s.2] ++ (ss.flatMap (fun s => [UInt8.ofNat s.1, UInt8.ofNat s.2]) ++ B) := by
+      simp [List.flatMap_cons, List.append_assoc]
+    have hd3 : A ++ (s :: ss).flatMap (fun s => [UInt8.ofNat s.1, UInt8.ofNat s.2]) ++ B
+        = (A ++ [UInt8.ofNat s.1, UInt8.ofNat s.2]) ++ ss.flatMap (fun s => [UInt8.ofNat s.1, UInt8.ofNat s.2]) ++ B := by
+      simp [List.flatMap_cons, List.append_assoc]
+    have hr1 : rd (A ++ (s :: ss).flatMap (fun s => [UInt8.ofNat s.1, UInt8.ofNat s.2]) ++ B) c 1 = some [UInt8.ofNat s.1] := by
+      rw [hd1]; exact rd_mid _ _ _ _ _ hc rfl
+    have hr2 : rd (A ++ (s :: ss).flatMap (fun s => [UInt8.ofNat s.1, UInt8.ofNat s.2]) ++ B) (c + 1) 1 = some [UInt8.ofNat s.2] := by
+      rw [hd2]; exact rd_mid _ _ _ _ _ (by simp [hc]) rfl
+    rw [hr1]; simp only
+    rw [hr2]; simp only
+    have hv1 : beVal [UInt8.ofNat s.1] = s.1 := by rw [beVal_single]; omega
+    have hv2 : beVal [UInt8.ofNat s.2] = s.2 := by rw [beVal_single]; omega
+    rw [hv1, hv2]
+    have : ¬ s.1 + s.2 > 255 := by omega
+    simp only [this, if_false]
+    have hlen : (segCodes (s :: ss)).length = (s.2 + 1) + (segCodes ss).length := by
+      simp [segCodes, codeRange, List.flatMap_cons]
+    rw [readRange_eq n (s.2 + 1) s.1 res cur (by omega) (by omega)]
+    have hsc : segCodes (s :: ss) = codeRange s.1 (s.2 + 1) ++ segCodes ss := by
+      simp [segCodes, List.flatMap_cons]
+    rw [hsc, readCodes_append]
+    cases hrc : readCodes (codeRange s.1 (s.2 + 1)) res cur with
+    | err e => rfl
+    | panic p => rfl
+    | ok v =>
+      obtain ⟨r, cu⟩ := v
+      simp only
+      have hcu := readCodes_cur _ _ _ _ _ hrc (by simp [codeRange]; omega)
+      have hcl : (codeRange s.1 (s.2 + 1)).length = s.2 + 1 := by simp [codeRange]
+      rw [hcl] at hcu
+      rw [hd3, ih (A ++ [UInt8.ofNat s.1, UInt8.ofNat s.2]) B (c + 2) r cu (by simp [hc])
+        (fun x hx => hb x (List.mem_cons_of_mem _ hx)) (by omega) hn6]
+      cases readCodes (segCodes ss) r cu with
+      | err e => rfl
+      | panic p => rfl
+      | ok w =>
+        obtain ⟨r2, cu2⟩ := w
+        simp only
+        congr 3
+        omega
+
+
+/-! ### supplements -/
+
+theorem sidLookup_go_none (sid : Nat) : ∀ (l : List Int) (off found : Nat),
+    (∀ x ∈ l, (x % 65536).toNat ≠ sid) → sidLookup.go sid l off found = found := by
+  intro l
+  induction l with
+  | nil => intro off found _; rfl
+  | cons x xs ih =>
+    intro off found h
+    simp only [sidLookup.go]
+    have := h x (List.mem_cons_self ..)
+    simp only [this, if_false]
+    exact ih _ _ (fun y hy => h y (List.mem_cons_of_mem _ hy))
+
+theorem sidLookup_go_skip (sid : Nat) : ∀ (A l : List Int) (off found : Nat),
+    (∀ x ∈ A, (x % 65536).toNat ≠ sid) →
+    sidLookup.go sid (A ++ l) off found = sidLookup.go sid l (off + A.length) found := by
+  intro A
+  induction A with
+  | nil => intro l off found _; simp
+  | cons a as ih =>
+    intro l off found h
+    simp only [List.cons_append, sidLookup.go]
+    have := h a (List.mem_cons_self ..)
+    simp only [this, if_false]
+    rw [ih l (off + 1) found (fun y hy => h y (List.mem_cons_of_mem _ hy))]
+    simp only [List.length_cons]
+    congr 1
+    omega
+
+/-- with pairwise distinct 16-bit names, the SID of glyph `g` leads back to `g` -/
+theorem sidLookup_names (names : List Int) (g : Nat) (hg : g < names.length) (hg16 : g < 65536)
+    (hnd : names.Nodup) (hr : ∀ x ∈ names, 0 ≤ x ∧ x ≤ 65535) :
+    sidLookup names (names.getD g 0).toNat = g := by
+  have hsplit : names = names.take g ++ (names.getD g 0 :: names.drop (g + 1)) := by
+    have h1 : names.getD g 0 = names[g] := by
+      simp [List.getD_eq_getElem?_getD, List.getElem?_eq_getElem hg]
+    rw [h1, List.getElem_cons_drop_succ_eq_drop, List.take_append_drop]
+  have hx := hr (names.getD g 0) (by
+    rw [List.getD_eq_getElem?_getD, List.getElem?_eq_getElem hg]; simp)
+  have hne : ∀ y ∈ names, y ≠ names.getD g 0 → (y % 65536).toNat ≠ (names.getD g 0).toNat := by
+    intro y hy hyne h
+    have := hr y hy
+    apply hyne
+    omega
+  have hnd' := hnd
+  rw [hsplit] at hnd'
+  have hA : ∀ y ∈ names.take g, y ≠ names.getD g 0 := by
+    intro y hy heq
+    have := (List.nodup_append.mp hnd').2.2 y hy (names.getD g 0) (List.mem_cons_self ..)
+    exact this heq
+  have hB : ∀ y ∈ names.drop (g + 1), y ≠ names.getD g 0 := by
+    intro y hy heq
+    have := (List.nodup_cons.mp (List.nodup_append.mp hnd').2.1).1
+    exact this (heq ▸ hy)
+  unfold sidLookup
+  conv => lhs; arg 2; rw [hsplit]
+  rw [sidLookup_go_skip _ _ _ _ _ (fun y hy => hne y (List.mem_of_mem_take hy) (hA y hy))]
+  simp only [sidLookup.go]
+  have hself : ((names.getD g 0) % 65536).toNat = (names.getD g 0).toNat := by omega
+  simp only [hself, if_true]
+  rw [sidLookup_go_none _ _ _ _ (fun y hy => hne y (List.mem_of_mem_drop hy) (hB y hy))]
+  simp only [List.length_take, Nat.zero_add]
+  rw [Nat.min_eq_left (by omega), Nat.mod_eq_of_lt hg16]
+
+/-- the supplement bytes of a list of (code, gid) entries -/
+def supBytes (names : List Int) (X : List (Nat × Nat)) : Bytes :=
+  X.flatMap fun e => UInt8.ofNat e.1 :: u16Bytes (names.getD e.2 0)
+
+theorem extraBytes_eq (names : List Int) : ∀ (X : List (Nat × Nat)), (∀ e ∈ X, e.2 < names.length) →
+    extraBytes names X = .ok (supBytes names X) := by
+  intro X
+  induction X with
+  | nil => intro _; rfl
+  | cons e es ih =>
+    intro h
+    obtain ⟨c, g⟩ := e
+    have hg : g < names.length := h (c, g) (List.mem_cons_self ..)
+    simp only [extraBytes, List.getElem?_eq_getElem hg, ih (fun x hx => h x (List.mem_cons_of_mem _ hx))]
+    simp [supBytes, List.flatMap_cons, List.getD_eq_getElem?_getD, List.getElem?_eq_getElem hg]
+
+theorem u16Bytes_eq (v : Int) : u16Bytes v = nameBytes v := rfl
+
+theorem length_supBytes (names : List Int) (X : List (Nat × Nat)) : (supBytes names X).length = 3 * X.length := by
+  induction X with
+  | nil => rfl
+  | cons e es ih => simp only [supBytes, List.flatMap_cons] at ih ⊢; simp [u16Bytes, ih]; omega
+
+theorem readSups_spec (names : List Int) (hnd : names.Nodup) (hr : ∀ x ∈ names, 0 ≤ x ∧ x ≤ 65535)
+    (hn16 : names.length ≤ 65536) :
+    ∀ (X : List (Nat × Nat)) (A B : Bytes) (pos : Nat) (res : List Nat) (cur : Nat), pos = A.length →
+      (∀ e ∈ X, e.1 < 256 ∧ e.1 < res.length ∧ e.2 ≠ 0 ∧ e.2 < cur ∧ e.2 < names.length ∧ res.getD e.1 0 = 0) →
+      (X.map (·.1)).Nodup →
+      ∃ res', readSups (A ++ supBytes names X ++ B) names X.length pos res cur = .ok res' ∧
+        res'.length = res.length ∧
+        ∀ c, res'.getD c 0 = match X.lookup c with
+          | some g => g
+          | none => res.getD c 0 := by
+  intro X
+  induction X with
+  | nil => intro A B pos res cur _ _ _; exact ⟨res, rfl, rfl, fun c => rfl⟩
+  | cons e es ih =>
+    intro A B pos res cur hpos hX hnodup
+    obtain ⟨cd, g⟩ := e
+    obtain ⟨h1, h2, h3, h4, h5, h6⟩ := hX (cd, g) (List.mem_cons_self ..)
+    simp only [List.map_cons, List.nodup_cons] at hnodup
+    simp only [List.length_cons, readSups]
+    have hd1 : A ++ supBytes names ((cd, g) :: es) ++ B
+        = A ++ [UInt8.ofNat cd] ++ (u16Bytes (names.getD g 0) ++ supBytes names es ++ B) := by
+      simp [supBytes, List.flatMap_cons, List.append_assoc]
+    have hd2 : A ++ supBytes names ((cd, g) :: es) ++ B
+        = (A ++ [UInt8.ofNat cd]) ++ u16Bytes (names.getD g 0) ++ (supBytes names es ++ B) := by
+      simp [supBytes, List.flatMap_cons, List.append_assoc]
+    have hd3 : A ++ supBytes names ((cd, g) :: es) ++ B
+        = (A ++ (UInt8.ofNat cd :: u16Bytes (names.getD g 0))) ++ supBytes names es ++ B := by
+      simp [supBytes, List.flatMap_cons, List.append_assoc]
+    have hr1 : rd (A ++ supBytes names ((cd, g) :: es) ++ B) pos 1 = some [UInt8.ofNat cd] := by
+      rw [hd1]; exact rd_mid _ _ _ _ _ hpos rfl
+    have hr2 : rd (A ++ supBytes names ((cd, g) :: es) ++ B) (pos + 1) 2 = some (u16Bytes (names.getD g 0)) := by
+      rw [hd2]; exact rd_mid _ _ _ _ _ (by simp [hpos]) rfl
+    rw [hr1]; simp only
+    have hv1 : beVal [UInt8.ofNat cd] = cd := by rw [beVal_single]; omega
+    rw [hv1]
+    simp only [h6, ne_eq, not_true_eq_false, if_false]
+    rw [hr2]; simp only
+    have hx := hr (names.getD g 0) (by
+      rw [List.getD_eq_getElem?_getD, List.getElem?_eq_getElem h5]; simp)
+    rw [u16Bytes_eq, beVal_nameBytes _ hx, sidLookup_names names g h5 (by omega) hnd hr]
+    have : ¬ g ≥ cur := by omega
+    simp only [this, if_false, h3, ne_eq, not_false_eq_true, if_true]
+    obtain ⟨res', q1, q2, q3⟩ := ih (A ++ (UInt8.ofNat cd :: u16Bytes (names.getD g 0))) B (pos + 3)
+      (res.set cd g) cur (by simp [u16Bytes, hpos])
+      (fun x hx => by
+        obtain ⟨a1, a2, a3, a4, a5, a6⟩ := hX x (List.mem_cons_of_mem _ hx)
+        refine ⟨a1, by rw [List.length_set]; exact a2, a3, a4, a5, ?_⟩
+        rw [getD_set]
+        have : ¬ (cd = x.1 ∧ cd < res.length) := by
+          intro h; exact hnodup.1 (by rw [h.1]; exact List.mem_map_of_mem hx)
+        simp only [this, if_false]; exact a6)
+      hnodup.2
+    rw [hd3, q1]
+    refine ⟨res', rfl, by rw [q2, List.length_set], ?_⟩
+    intro c
+    rw [q3 c]
+    simp only [List.lookup_cons]
+    by_cases hc : c = cd
+    · subst hc
+      have : es.lookup c = none := by
+        rw [List.lookup_eq_none_iff]
+        intro x hx heq
+        apply hnodup.1
+        have : x.1 = c := by simpa using heq
+        rw [← this]; exact List.mem_map_of_mem hx
+      simp [this, getD_set, h2]
+    · have hc' : (c == cd) = false := by simpa using hc
+      simp only [hc']
+      cases es.lookup c with
+      | some g' => rfl
+      | none =>
+        simp only
+        rw [getD_set]
+        have : ¬ (cd = c ∧ cd < res.length) := fun h => hc h.1.symm
+        simp [this]
 
 end SfntV.Cff
